@@ -40,7 +40,7 @@ For each change deliver, under {out}/<id>/ (ids: {id1} and {id2}):
   demo.py      - a self-contained demonstration program run as `cd <tree> && PYTHONPATH=<tree> /venv/bin/python demo.py` that exits 0 on the unchanged tree and exits non-zero (assertion failure with a clear message) on the tree with the change. It must exercise the real code (engine / session / codec / client objects; an in-memory or temp-file SQLite database and mocks for sockets are fine), be deterministic, finish in under 60 s, and need no network. It must import kmip from the current directory's tree (do not hard-code {wt}).
   notes.md     - first line: a one-line title of the defect. Then sections: "## The change", "## Which clause breaks, and why", "## What it needs to manifest", "## Why the existing tests do not notice".
 
-Before you finish, verify for EACH change, starting from a clean tree (`git -C {wt} checkout -- . && git -C {wt} clean -fdq`): apply the patch alone; run the full unit suite (must be 3358 passed, the same 2 failures); run demo.py (must fail); revert; run demo.py (must pass). Leave the worktree clean (`git checkout -- .`) at the end. Report, for each id, the title, the files changed and the verification results. Do not commit anything.
+Before you finish, verify for EACH change, starting from a clean tree (`git -C {wt} checkout -- . && git -C {wt} clean -fdq`): apply the patch alone; run the full unit suite (must be 3358 passed, the same 2 failures); run demo.py (must fail); revert; run demo.py (must pass). Leave the worktree clean (`git checkout -- .`) at the end. Report, for each id, the title, the files changed and the verification results. Do not commit anything and do NOT use `git stash` (the stash is shared between worktrees of other people working in parallel): to set a change aside use `git diff > file; git checkout -- .` and `git apply file`.
 """
 
 BENIGN = COMMON + """
@@ -52,7 +52,7 @@ For each change deliver, under {out}/<id>/ (ids: {id1} and {id2}):
   patch.diff   - `git diff` of your worktree for that change alone (relative to the worktree's HEAD; must apply with `git apply` to a clean checkout of HEAD). The two patches are independent: each applies alone to HEAD.
   notes.md     - first line: a one-line title of the change. Then sections: "## The change", "## Why the property still holds" (clause by clause for the clauses the touched code carries), "## What I ran".
 
-Before you finish, verify for EACH change, starting from a clean tree (`git -C {wt} checkout -- . && git -C {wt} clean -fdq`): apply the patch alone; run the full unit suite (must be 3358 passed, the same 2 failures; do not edit tests); exercise the touched code path at least once with a small ad-hoc script to see it still behaves as before. Leave the worktree clean (`git checkout -- .`) at the end. Report, for each id, the title, files changed and verification results. Do not commit anything.
+Before you finish, verify for EACH change, starting from a clean tree (`git -C {wt} checkout -- . && git -C {wt} clean -fdq`): apply the patch alone; run the full unit suite (must be 3358 passed, the same 2 failures; do not edit tests); exercise the touched code path at least once with a small ad-hoc script to see it still behaves as before. Leave the worktree clean (`git checkout -- .`) at the end. Report, for each id, the title, files changed and verification results. Do not commit anything and do NOT use `git stash` (the stash is shared between worktrees of other people working in parallel): to set a change aside use `git diff > file; git checkout -- .` and `git apply file`.
 """
 
 print((DEFECT if mode == 'defect' else BENIGN).format(wt=wt, out=out, text=text, id1=id1, id2=id2))
